@@ -7,6 +7,7 @@ samples that meet). The theorems below cover the parts that agree and exhibit th
 -/
 import PromqlVerif.Proofs.Den
 import PromqlVerif.Proofs.JoinPos
+import PromqlVerif.Proofs.JoinTables
 namespace PromqlVerif.C05
 open PromqlVerif Val
 
@@ -80,9 +81,8 @@ theorem engine_accepts_implicit_many_to_one :
 /-! ### where the engine's join is right: unique match keys (towards a positive theorem)
 
 The known finding KF-binary-matching is about several series per match key. With pairwise distinct
-keys on both sides of a one-to-one match the pieces below hold; composing them into "the engine's
-step output is the reference's up to order" additionally needs the characterisation of `engJoin`'s
-index tables under unique keys, which is not done. -/
+keys on both sides of a one-to-one match the engine is right: the pieces below compose into
+`vector_matching_with_unique_keys` at the end of this file. -/
 
 /-- the reference engine, one-to-one, distinct match keys on both sides: never an error, one output
 per left-hand sample with a partner that passes the comparison, in left-hand order -/
@@ -118,5 +118,117 @@ theorem matched_pairs_from_either_side {β : Type} (pm pmInv : Nat → Option Na
     (lhs.filterMap fun x => (pm x.1).bind fun l => (rhs.find? (fun z => z.1 == l)).bind fun y => e x y).Perm
       (rhs.filterMap fun y => (pmInv y.1).bind fun i => (lhs.find? (fun z => z.1 == i)).bind fun x => e x y) :=
   matched_perm pm pmInv hpm lhs rhs hl hr e
+
+open Classical in
+/-- **C05 for vector-to-vector operators, where the engine is right.** A one-to-one match without
+include labels between two operands whose series have pairwise distinct match keys (for every
+operator of the engine, `on` / `ignoring` with any label list, with and without `bool`): the join
+tables `engJoin` builds from the two series lists (`Proofs/JoinTables.lean`: its loop over the
+buckets, by invariant) give every left-hand series with a partner its own output, labelled with the
+reference's result metric; at every step, whatever samples the operands deliver (IDs valid and
+distinct - the stream contract, C18), the first pass fills one slot per left-hand sample, the second
+probes exactly the partner's slot, no duplicate is reported - and the step vector, read through the
+output series, is the reference engine's result for the two denoted vectors, up to order. What lies
+outside this theorem - several series per key on a side, `group_left` / `group_right` - is what the
+known finding KF-binary-matching records. -/
+theorem vector_matching_with_unique_keys (op : String) (bool : Bool) (m : Matching)
+    (hc : m.card = .oneToOne) (hincl : m.incl = []) (H Lw : List Labels)
+    (hH : ∀ i i', i < H.length → i' < H.length → sigLabels m (H.getD i []) = sigLabels m (H.getD i' []) → i = i')
+    (hL : ∀ l l', l < Lw.length → l' < Lw.length → sigLabels m (Lw.getD l []) = sigLabels m (Lw.getD l' []) → l = l')
+    (lhs rhs : IdVec V) (hlv : ∀ x ∈ lhs, x.1 < H.length) (hrv : ∀ y ∈ rhs, y.1 < Lw.length)
+    (hl : (lhs.map (·.1)).Pairwise (· ≠ ·)) (hr : (rhs.map (·.1)).Pairwise (· ≠ ·)) :
+    let j := engJoin m (!(dropsName op || bool)) H Lw
+    ∃ eng ref, (engVectorBinop op bool .oneToOne j lhs rhs).map (denote j.outputs) = .ok eng ∧
+      vectorBinop op bool m (denote H lhs) (denote Lw rhs) = .ok ref ∧ eng.Perm ref := by
+  intro j
+  let kn := !(dropsName op || bool)
+  -- the partner maps the unique keys determine
+  let pmInv : Nat → Option Nat := fun l =>
+    if h : ∃ i, i < H.length ∧ l < Lw.length ∧ sigLabels m (H.getD i []) = sigLabels m (Lw.getD l []) then some (choose h) else none
+  let pm : Nat → Option Nat := fun i =>
+    if h : ∃ l, i < H.length ∧ l < Lw.length ∧ sigLabels m (H.getD i []) = sigLabels m (Lw.getD l []) then some (choose h) else none
+  have pmInv_sound : ∀ l i, pmInv l = some i → i < H.length ∧ l < Lw.length ∧ sigLabels m (H.getD i []) = sigLabels m (Lw.getD l []) := by
+    intro l i h
+    simp only [pmInv] at h
+    split at h
+    · rename_i hex
+      simp only [Option.some.injEq] at h
+      subst h
+      exact choose_spec hex
+    · cases h
+  have pmInv_complete : ∀ l i, i < H.length → l < Lw.length → sigLabels m (H.getD i []) = sigLabels m (Lw.getD l []) → pmInv l = some i := by
+    intro l i hi hl hk
+    have hex : ∃ i, i < H.length ∧ l < Lw.length ∧ sigLabels m (H.getD i []) = sigLabels m (Lw.getD l []) := ⟨i, hi, hl, hk⟩
+    simp only [pmInv, dif_pos hex, Option.some.injEq]
+    obtain ⟨h1, _, h3⟩ := choose_spec hex
+    exact hH _ _ h1 hi (by rw [h3, hk])
+  have pm_sound : ∀ i l, pm i = some l → i < H.length ∧ l < Lw.length ∧ sigLabels m (H.getD i []) = sigLabels m (Lw.getD l []) := by
+    intro i l h
+    simp only [pm] at h
+    split at h
+    · rename_i hex
+      simp only [Option.some.injEq] at h
+      subst h
+      exact choose_spec hex
+    · cases h
+  have pm_complete : ∀ i l, i < H.length → l < Lw.length → sigLabels m (H.getD i []) = sigLabels m (Lw.getD l []) → pm i = some l := by
+    intro i l hi hl hk
+    have hex : ∃ l, i < H.length ∧ l < Lw.length ∧ sigLabels m (H.getD i []) = sigLabels m (Lw.getD l []) := ⟨l, hi, hl, hk⟩
+    simp only [pm, dif_pos hex, Option.some.injEq]
+    obtain ⟨_, h2, h3⟩ := choose_spec hex
+    exact hL _ _ h2 hl (by rw [← h3, hk])
+  have hkf : KeyFacts m kn H Lw pmInv :=
+    ⟨fun i i' hi hi' hk => hH i i' hi hi' (by rw [← kOf_eq_sig m kn, ← kOf_eq_sig m kn]; exact hk),
+     fun l l' hl hl' hk => hL l l' hl hl' (by rw [← kOf_eq_sig m kn, ← kOf_eq_sig m kn]; exact hk),
+     fun l i h => by
+       obtain ⟨h1, h2, h3⟩ := pmInv_sound l i h
+       exact ⟨h1, h2, by rw [kOf_eq_sig, kOf_eq_sig]; exact h3⟩,
+     fun l i hi hl hk => pmInv_complete l i hi hl (by rw [← kOf_eq_sig m kn, ← kOf_eq_sig m kn]; exact hk)⟩
+  have hpart : Partners (sigLabels m) H Lw pm pmInv :=
+    ⟨fun i l => ⟨fun h => by
+        obtain ⟨h1, h2, h3⟩ := pm_sound i l h
+        exact pmInv_complete l i h1 h2 h3,
+      fun h => by
+        obtain ⟨h1, h2, h3⟩ := pmInv_sound l i h
+        exact pm_complete i l h1 h2 h3⟩,
+     fun i l h => by
+       obtain ⟨h1, h2, h3⟩ := pm_sound i l h
+       exact ⟨h3, h1, h2⟩,
+     fun i l hi hl hk => pm_complete i l hi hl hk⟩
+  exact step_agrees op bool m hc j H Lw (oOf m kn) pm pmInv
+    (engJoin_tables m kn H Lw hincl pmInv hkf) hpart
+    (fun h lw => oOf_eq_resultMetric m op bool hc hincl h lw) hH hL lhs rhs hlv hrv hl hr
+
+/-- the operator `engOp` builds for a vector-to-vector expression is that join over its children's
+series lists -/
+theorem engOp_vector_vector (c : Ctx V) (op : String) (bool : Bool) (m : Matching) (l r : Expr V) (lo ro : OpSem V)
+    (hl : engOp c l = .ok lo) (hr : engOp c r = .ok ro) (hop : engineBinOps.contains op = true)
+    (hls : l.isScalar = false) (hrs : r.isScalar = false) (hc : m.card = .oneToOne) :
+    engOp c (.bin op bool m l r) = .ok
+      { series := (engJoin m (!(dropsName op || bool)) lo.series ro.series).outputs
+        step := fun t => do
+          let a ← lo.step t
+          let b ← ro.step t
+          engVectorBinop op bool .oneToOne (engJoin m (!(dropsName op || bool)) lo.series ro.series) a b } := by
+  rw [engOp]
+  simp only [hl, hr, bind, Except.bind, hop, Bool.not_true, Bool.false_eq_true, if_false, hls, hrs, Bool.or_self, hc,
+    show (Card.oneToOne == Card.oneToMany) = false from rfl, pure, Except.pure]
+
+/-- a concrete step: two series per side, matched on `a`; one pair matches -/
+example :
+    ((engVectorBinop "+" false .oneToOne
+          (engJoin ⟨.oneToOne, true, ["a"], []⟩ false
+            [[⟨"__name__", "m"⟩, ⟨"a", "x"⟩], [⟨"__name__", "m"⟩, ⟨"a", "y"⟩]]
+            [[⟨"__name__", "n"⟩, ⟨"a", "y"⟩], [⟨"__name__", "n"⟩, ⟨"a", "z"⟩]])
+          [(0, (1 : Int)), (1, 2)] [(0, 10), (1, 20)]).map
+        (denote (engJoin ⟨.oneToOne, true, ["a"], []⟩ false
+            [[⟨"__name__", "m"⟩, ⟨"a", "x"⟩], [⟨"__name__", "m"⟩, ⟨"a", "y"⟩]]
+            [[⟨"__name__", "n"⟩, ⟨"a", "y"⟩], [⟨"__name__", "n"⟩, ⟨"a", "z"⟩]]).outputs)).toOption
+      = some [([⟨"a", "y"⟩], 12)] ∧
+    (vectorBinop "+" false ⟨.oneToOne, true, ["a"], []⟩
+        (denote [[⟨"__name__", "m"⟩, ⟨"a", "x"⟩], [⟨"__name__", "m"⟩, ⟨"a", "y"⟩]] [(0, (1 : Int)), (1, 2)])
+        (denote [[⟨"__name__", "n"⟩, ⟨"a", "y"⟩], [⟨"__name__", "n"⟩, ⟨"a", "z"⟩]] [(0, 10), (1, 20)])).toOption
+      = some [([⟨"a", "y"⟩], 12)] := by
+  decide
 
 end PromqlVerif.C05
